@@ -145,10 +145,19 @@ use crate::hashes::pedersen;
 pub open spec fn page_flat(cells: Seq<AddrValue>) -> Seq<nat> decreases cells.len() {
     if cells.len() == 0 { Seq::<nat>::empty() } else { page_flat(cells.drop_last()) + seq![cells.last().address@, cells.last().value@] }
 }
-#[verifier::external_body]
-pub fn hoisted_flatten_page(page: &Page) -> (r: Vec<Felt>)
-    ensures fv(r@) == page_flat(page.0@), r@.len() == 2 * page.0@.len(),
-{ unimplemented!() }
+pub proof fn lemma_page_chunks(s: Seq<AddrValue>, chunks: Seq<Vec<Felt>>)
+    requires chunks.len() == s.len(), forall|i: int| 0 <= i < s.len() ==> (#[trigger] chunks[i])@ == seq![s[i].address, s[i].value]
+    ensures fv(concat_vecs(chunks)) == page_flat(s), concat_vecs(chunks).len() == 2 * s.len()
+    decreases s.len()
+{
+    if s.len() == 0 {
+        assert(fv(concat_vecs(chunks)) =~= page_flat(s));
+    } else {
+        lemma_page_chunks(s.drop_last(), chunks.drop_last());
+        assert(fv(concat_vecs(chunks)) =~= fv(concat_vecs(chunks.drop_last())) + fv(chunks.last()@));
+        assert(fv(chunks.last()@) =~= seq![s.last().address@, s.last().value@]);
+    }
+}
 /// number of elements of `memory.iter().skip(a).step_by(2).take(b)`
 pub open spec fn sst_len(len: nat, a: nat, b: nat) -> nat {
     let avail = if a >= len { 0 } else { (len - a + 1) / 2 };
